@@ -244,11 +244,13 @@ class Source:
             k = self.next_sig(k)
         raise ExtractError(f"{self.path}: item end not found")
 
-    def _find_impl(self, header: str) -> tuple[int, int, int]:
+    def _find_impl(self, header: str, lo: int = -1, hi: int | None = None) -> tuple[int, int, int]:
         """Find `impl <header> {`; header compared with all whitespace removed. Returns (start, open_brace, close_brace)."""
         want = re.sub(r"\s+", "", header)
         found = []
-        for k in self.children(-1, len(self.toks)):
+        if hi is None:
+            hi = len(self.toks)
+        for k in self.children(lo, hi):
             t = self.toks[k]
             if t.kind == "ident" and t.text == "impl":
                 j = self.next_sig(k)
@@ -268,7 +270,7 @@ class Source:
                     continue
                 got = "".join(parts)
                 if got == want:
-                    found.append((self._item_start(k, -1), j, self.match[j]))
+                    found.append((self._item_start(k, lo), j, self.match[j]))
         if not found:
             raise ExtractError(f"{self.path}: anchor lost: impl `{header}` not found")
         return found  # type: ignore[return-value]
@@ -300,7 +302,7 @@ class Source:
             item = rest.strip()
         if item.startswith("impl "):
             header, sep, rest = item[5:].partition(" :: ")
-            impls = self._find_impl(header.strip())
+            impls = self._find_impl(header.strip(), lo, hi)
             if not sep:
                 if len(impls) != 1:
                     raise ExtractError(f"{self.path}: impl `{header}` is ambiguous ({len(impls)} blocks)")
@@ -333,7 +335,7 @@ LOG_MACROS = {
     "trace", "debug", "info", "warn", "error", "event",
     "trace_every_ms", "debug_every_ms", "warn_every_ms", "info_every_ms", "error_every_ms",
 }
-DROP_ATTRS = ("must_use", "allow", "inline", "track_caller", "doc", "cfg(test)", "instrument", "tracing::instrument")
+DROP_ATTRS = ("must_use", "allow", "inline", "track_caller", "doc", "cfg(test)", "instrument", "tracing::instrument", "error", "from")
 KEEP_DERIVES = ("Clone", "Copy", "PartialEq", "Eq")
 
 
